@@ -188,6 +188,8 @@ def c02(ctx):
     ctx.sim("noise", 100 if q else 2000, LOOP, "MonLoop_C02.cfg", seed_off=1, nontrivial=has_noise, extra_args=[])
     # many rounds: the sequence offset of every regime crosses the buffer size and the wrap-around point
     ctx.sim("long", 8 if q else 120, LOOP, "MonLoop_C02.cfg", seed_off=2, nontrivial=has_genuine, conf=CONF, batch=4 if q else 20)
+    # UDP paris / dublin without privileges (F28): refused at start, or every genuine response recognised
+    ctx.sim("unpriv", 24 if q else 240, LOOP, "MonLoop_C02.cfg", seed_off=3)
     ctx.write_evidence("model_checking", "model: MC_Wire - Decode(Quote(Encode(p), v)) = p.seq, acceptance, rejection of every foreign variation and injectivity for every supported cell x sequence in the named set x quotation variation; "
                        "implementation: distinct (cell, quotation form/topology shape) scenarios of the systematic sweep in which genuine and foreign responses were delivered: every genuine response must complete exactly its probe, every foreign one must be a no-op, and the bytes on the wire must equal Wire!Encode",
                        assumptions=LOOP_ASSUME + ["the byte -> field abstraction is the independent decoder in harness/vh/src/wire.rs (trusted)"])
@@ -361,6 +363,7 @@ CFGM = "mon/MonCfg.tla"
 def c16(ctx):
     q = ctx.quick()
     ctx.model("mc/MC_Config.tla", "MC_Config.cfg", workers=8)
+    ctx.model("mc/MC_Config.tla", "MC_Config_legacy.cfg", workers=4, expect_violation="AcceptedLegacy", label="MC_Config_legacy (the defect repaired by F28 must show)")
     # precedence: every option x layer state x values over random backgrounds, through the real Args / ConfigFile / build_config
     ctx.sim("layer", 6 if q else 60, CFGM, "MonCfg_C16.cfg", package="vt", subcmd="cfg", batch=3 if q else 10)
     # builder alone (library users): boundary values of every builder parameter, whatever build() accepts is run
